@@ -37,7 +37,8 @@ structure SStep (W : U16 → Prop) (s s' : Tcb) : Prop where
   rwnd : s'.rcv.wnd = s.rcv.wnd
   one : ∀ h ∈ s'.outgoing.oneshot, h ∈ s.outgoing.oneshot ∨ OneNew s' h
   rtx : ∀ tr ∈ s'.outgoing.retransmit,
-    (∃ t0 ∈ s.outgoing.retransmit, t0.segment = tr.segment) ∨ tr.segment.hdr.wnd = s'.rcv.wnd
+    (∃ t0 ∈ s.outgoing.retransmit, t0.segment = tr.segment) ∨
+      (tr.segment.hdr.wnd = s'.rcv.wnd ∧ (tr.segment.hdr.ctl.ack = true ∨ tr.segment.hdr.ctl.syn = true))
   back : s.state ≠ .SynSent → s'.state ≠ .SynSent
 
 theorem SStep.refl {W : U16 → Prop} (s : Tcb) : SStep W s s :=
@@ -80,7 +81,9 @@ theorem SStep.of_eq {W : U16 → Prop} {s s' : Tcb} (h1 : s'.snd.wnd = s.snd.wnd
 
 /-- queue a header that advertises `RCV.WND` and (if it goes to the one-shot queue) is `OneNew` -/
 theorem sstep_enqueue {W : U16 → Prop} (s : Tcb) (hd : Hdr) (hw : hd.wnd = s.rcv.wnd)
-    (ho : (hd.ctl.syn || hd.ctl.fin) = false → OneNew s hd) : SStep W s (s.enqueueBuilt hd) := by
+    (ho : (hd.ctl.syn || hd.ctl.fin) = false → OneNew s hd)
+    (ha : (hd.ctl.syn || hd.ctl.fin) = true → hd.ctl.ack = true ∨ hd.ctl.syn = true) :
+    SStep W s (s.enqueueBuilt hd) := by
   have fr := enqueueBuilt_frame s hd
   refine ⟨Or.inl (by rw [fr.2.2.1]), fun a b => absurd (by rw [state_enqueueBuilt]; exact a) b, by rw [fr.2.2.1],
     by rw [fr.2.1], ?_, ?_, fun a => by rw [state_enqueueBuilt]; exact a⟩
@@ -96,19 +99,22 @@ theorem sstep_enqueue {W : U16 → Prop} (s : Tcb) (hd : Hdr) (hw : hd.wnd = s.r
   · intro tr hh
     unfold enqueueBuilt at hh
     split at hh
-    · simp only [List.mem_append, List.mem_singleton] at hh
+    · rename_i hsf
+      simp only [List.mem_append, List.mem_singleton] at hh
       rcases hh with hh | rfl
       · exact Or.inl ⟨tr, hh, rfl⟩
-      · right; rw [fr.2.1]; exact hw
+      · right; rw [fr.2.1]; exact ⟨hw, ha hsf⟩
     · exact Or.inl ⟨tr, hh, rfl⟩
 
 theorem sstep_enqueue_ack {W : U16 → Prop} (s : Tcb) : SStep W s (s.enqueueBuilt s.ackHdr.built) :=
-  sstep_enqueue s _ rfl (fun _ => oneNew_ackHdr s)
+  sstep_enqueue s _ rfl (fun _ => oneNew_ackHdr s) (fun h => by cases h)
 
 /-- a state that differs from `s` in fields `SStep` tracks only through `h*`, then a queued header -/
 theorem sstep_then {W : U16 → Prop} {s t : Tcb} (hd : Hdr) (base : SStep W s t) (hw : hd.wnd = t.rcv.wnd)
-    (ho : (hd.ctl.syn || hd.ctl.fin) = false → OneNew t hd) : SStep W s (t.enqueueBuilt hd) :=
-  base.trans (sstep_enqueue t hd hw ho)
+    (ho : (hd.ctl.syn || hd.ctl.fin) = false → OneNew t hd)
+    (ha : (hd.ctl.syn || hd.ctl.fin) = true → hd.ctl.ack = true ∨ hd.ctl.syn = true) :
+    SStep W s (t.enqueueBuilt hd) :=
+  base.trans (sstep_enqueue t hd hw ho ha)
 
 /-! ## the blocks -/
 
@@ -172,14 +178,14 @@ theorem ackBlock_s (s : Tcb) (seg : Hdr) : ∃ s' r, ackBlock s seg = .ok (s', r
       · split
         · exact ⟨_, _, rfl, SStep.refl _⟩
         · simp only [enqueueThen_eq]
-          exact ⟨_, _, rfl, sstep_enqueue _ _ rfl (fun _ => ⟨rfl, Or.inl rfl⟩)⟩
+          exact ⟨_, _, rfl, sstep_enqueue _ _ rfl (fun _ => ⟨rfl, Or.inl rfl⟩) (fun h => by cases h)⟩
       · split
         · split
           · refine ⟨_, _, rfl, ⟨Or.inl rfl, fun _ b => absurd hst b, rfl, rfl, fun _ h => Or.inl h,
               fun tr h => Or.inl ⟨tr, (List.mem_filter.1 h).1, rfl⟩, fun a => absurd hst a⟩⟩
           · exact ⟨_, _, rfl, SStep.refl _⟩
         · simp only [enqueueThen_eq]
-          exact ⟨_, _, rfl, sstep_enqueue _ _ rfl (fun _ => ⟨rfl, Or.inl rfl⟩)⟩
+          exact ⟨_, _, rfl, sstep_enqueue _ _ rfl (fun _ => ⟨rfl, Or.inl rfl⟩) (fun h => by cases h)⟩
     · -- SYN-RECEIVED
       rename_i hst
       split
@@ -189,7 +195,7 @@ theorem ackBlock_s (s : Tcb) (seg : Hdr) : ∃ s' r, ackBlock s seg = .ok (s', r
             fun tr h => Or.inl ⟨tr, h, rfl⟩, fun _ => (by simp)⟩
         · split <;> exact ⟨_, _, rfl, rfl, rfl, rfl, id⟩
       · simp only [enqueueThen_eq]
-        exact ⟨_, _, rfl, sstep_enqueue _ _ rfl (fun _ => ⟨rfl, Or.inl rfl⟩)⟩
+        exact ⟨_, _, rfl, sstep_enqueue _ _ rfl (fun _ => ⟨rfl, Or.inl rfl⟩) (fun h => by cases h)⟩
     iterate 3
       · rename_i hst
         refine est s _ (by rw [hst]; simp) (by rw [hst]; simp) (SStep.refl _) (fun s1 r1 => ?_)
@@ -218,11 +224,12 @@ theorem synBlock_s (s : Tcb) (seg : Hdr) (s' : Tcb) (r : Option ProcessSegmentRe
       · rw [enqueueThen_eq] at e
         cases e
         refine sstep_then _ ⟨Or.inr rfl, fun _ _ => rfl, rfl, rfl, fun _ h => Or.inl h, fun tr h => Or.inl ⟨tr, h, rfl⟩,
-          fun a => absurd hst a⟩ rfl (fun _ => ⟨rfl, Or.inr ⟨rfl, rfl, rfl, rfl⟩⟩)
+          fun a => absurd hst a⟩ rfl (fun _ => ⟨rfl, Or.inr ⟨rfl, rfl, rfl, rfl⟩⟩) (fun h => by cases h)
       · rw [enqueueThen_eq] at e
         cases e
         refine sstep_then _ ⟨Or.inr rfl, fun _ _ => rfl, rfl, rfl, fun _ h => Or.inl h, fun tr h => Or.inl ⟨tr, h, rfl⟩,
           fun a => absurd hst a⟩ rfl (fun h => by simp [Hdr.built, Hdr.withWnd, Hdr.withAck, Hdr.withSyn] at h)
+          (fun _ => Or.inl rfl)
     · rw [enqueueThen_eq] at e
       cases e
       exact sstep_enqueue_ack s
@@ -241,7 +248,7 @@ theorem textBlock_s {W : U16 → Prop} (s : Tcb) (seg : Hdr) (text : List UInt8)
            | (simp at e; done)
            | (rw [enqueueThen_eq] at e
               cases e
-              refine sstep_then _ (SStep.of_eq ?_ ?_ ?_ ?_ ?_ ?_ ?_) ?_ ?_
+              refine sstep_then _ (SStep.of_eq ?_ ?_ ?_ ?_ ?_ ?_ ?_) ?_ ?_ ?_
               · rfl
               · rfl
               · rfl
@@ -250,7 +257,8 @@ theorem textBlock_s {W : U16 → Prop} (s : Tcb) (seg : Hdr) (text : List UInt8)
               · exact id
               · exact id
               · rfl
-              · exact fun _ => ⟨rfl, Or.inr ⟨rfl, rfl, rfl, rfl⟩⟩))
+              · exact fun _ => ⟨rfl, Or.inr ⟨rfl, rfl, rfl, rfl⟩⟩
+              · exact fun h => by cases h))
 
 theorem finBlock_s {W : U16 → Prop} (s : Tcb) (seg : Hdr) (tl : Seq) (s' : Tcb) (r : Option ProcessSegmentResult)
     (e : finBlock s seg tl = .ok (s', r)) : SStep W s s' := by
@@ -269,7 +277,7 @@ theorem finBlock_s {W : U16 → Prop} (s : Tcb) (seg : Hdr) (tl : Seq) (s' : Tcb
       · split at h1
         · rw [enqueue_eq] at h1
           cases h1
-          refine ⟨sstep_then _ (SStep.of_eq ?_ ?_ ?_ ?_ ?_ ?_ ?_) ?_ ?_, by rw [state_enqueueBuilt]⟩
+          refine ⟨sstep_then _ (SStep.of_eq ?_ ?_ ?_ ?_ ?_ ?_ ?_) ?_ ?_ ?_, by rw [state_enqueueBuilt]⟩
           · rfl
           · rfl
           · rfl
@@ -279,6 +287,7 @@ theorem finBlock_s {W : U16 → Prop} (s : Tcb) (seg : Hdr) (tl : Seq) (s' : Tcb
           · exact id
           · rfl
           · exact fun _ => ⟨rfl, Or.inr ⟨rfl, rfl, rfl, rfl⟩⟩
+          · exact fun h => by cases h
         · cases h1; exact ⟨SStep.refl _, Iff.rfl⟩
       · cases h1; exact ⟨SStep.refl _, Iff.rfl⟩
     split at e
